@@ -4495,7 +4495,7 @@ func (t *Terminal) Loop() error {
 							for {
 								select {
 								case <-ticker.C:
-									if len(lines) > 0 && len(lines) >= initialOffset {
+									if len(lines) > 0 && len(lines) > initialOffset {
 										if spinnerIndex >= 0 {
 											spin := spinner[spinnerIndex%len(spinner)]
 											t.reqBox.Set(reqPreviewDisplay, previewResult{version, lines, offset, spin})
